@@ -2,6 +2,7 @@
 .PHONY: setup coq clean
 setup: coq
 coq:
+	PYTHONPATH=/verif /venv/bin/python -c 'from harness import extract; print(extract.regenerate())'
 	cd coq && coq_makefile -f _CoqProject -o Makefile && timeout 3000 $(MAKE) -j8
 clean:
 	cd coq && [ -f Makefile ] && $(MAKE) clean || true
